@@ -139,7 +139,8 @@ pub fn run(cfg: &Cfg, rep: &mut Report) {
         let mut c = Context::default();
         for _ in 0..nmsg {
             bump(ctx, 1);
-            let plan = gen_plan(rng, &rt, 10);
+            let many = if rng.chance(1, 400) && !ctx.cfg.tiny { 300 } else { 10 };
+            let plan = gen_plan(rng, &rt, many);
             let (want, nq, nd) = expected_response(&plan, &scripts);
             dev.clear();
             // growable formatter, and now and then the fixed-capacity one with ample room
